@@ -1039,11 +1039,14 @@ class ExistsCriterion(Criterion):
         self.container = container
         self._is_negated = False
 
-    def get_sql(self, **kwargs):
+    def get_sql(self, with_alias: bool = False, **kwargs):
         # FIXME escape
-        return "{not_}EXISTS {container}".format(
+        sql = "{not_}EXISTS {container}".format(
             container=self.container.get_sql(**kwargs), not_='NOT ' if self._is_negated else ''
         )
+        if with_alias:
+            return format_alias_sql(sql, self.alias, **kwargs)
+        return sql
 
     @builder
     def negate(self):
